@@ -75,6 +75,23 @@ def clause1_fini(ctx, P, cg):
     rip = P.fn("router.c:remove_routing_info_from_peer")
     ctx.ob("C05.1 R-FINI", rip, "routed-to-it-answered", _reaches(P, cg, rip.name, {"send_shutdown_response"}),
            "requests routed to the leaving peer are not answered with an error")
+    # teardown loops act on EVERY item: the action call dominates the loop latch (no conditional skip)
+    for key, action in (("peer.c:remove_peer_from_routes", "remove_peer_from_routing_table"),
+                        ("fetch.c:remove_all_fetchers_from_peer", "free_fetch"),
+                        ("element.c:remove_all_elements_from_peer", "remove_element"),
+                        ("fetch.c:remove_fetch_from_states", "remove_fetch_from_states_in_peer"),
+                        ("fetch.c:remove_fetch_from_states_in_peer", "remove_fetch_from_state")):
+        g = P.fn(key)
+        loops = g.loops()
+        cs = g.calls(action)
+        ok = len(loops) == 1 and len(cs) >= 1
+        if ok:
+            (h, body), = loops.items()
+            latches = [b for b in body if h in g.succs[b]]
+            dom = g.dominators()
+            ok = all(any(c.block in dom[l] for c in cs) for l in latches)
+        ctx.ob("C05.1 R-LOOP", g, "every-item:" + action, ok,
+               "%s does not apply %s to every item of the list it walks (a conditional skip leaves entries of the leaving peer behind)" % (g.srcname, action))
     # close entries
     entries = set()
     for key in (("struct.peer", "close"), ("struct.buffered_socket", "error"), ("struct.websocket", "on_error"),
